@@ -76,3 +76,20 @@ Fixpoint bad_from {A} (f : A -> bool) (k : nat) (l : list A) : list nat :=
   | x :: l' => if f x then bad_from f (S k) l' else k :: bad_from f (S k) l'
   end.
 Definition bad {A} (f : A -> bool) (l : list A) : list nat := bad_from f 0%nat l.
+
+(* ---- the public helpers as they are called: outside a declared parallel region (region counter < 1) they refuse;
+   reduce / allreduce refuse there too, sum over the processes exactly in level 1 and leave the data alone elsewhere ---- *)
+Inductive handed := Refused | Handed (idx : list Z).
+Definition helper (region level : Z) (v : variant) (size start stop rank : Z) : handed :=
+  if region <? 1 then Refused else Handed (api_block level v size start stop rank).
+Inductive rmode := RRefused | RSummed | RUntouched.
+Definition reduce_mode (region level : Z) : rmode :=
+  if region <? 1 then RRefused else if level =? 1 then RSummed else RUntouched.
+
+(* correspondence: (region, level, the range/list/array helpers refused, what reduce and allreduce did: 0 refused,
+   1 summed over the communicator, 2 left the data alone) as observed on a real configuration object *)
+Definition rmode_code (m : rmode) : Z := match m with RRefused => 0 | RSummed => 1 | RUntouched => 2 end.
+Definition guard_agrees (c : Z * Z * bool * Z) : bool :=
+  let '(region, level, hr, rr) := c in
+  Bool.eqb hr (match helper region level FromStart 1 0 0 0 with Refused => true | Handed _ => false end) &&
+  (rr =? rmode_code (reduce_mode region level)).
